@@ -20,6 +20,7 @@ INV = {
     'C15': ['Inv_C15_SameAsLocal', 'Inv_C15_PhaseObjectFaithful', 'Inv_C15_PhaseObjectLifetime', 'Inv_C15_PausePropagation'],
     'C12': ['Inv_C12_InformerIffOwned', 'Inv_C12_HandlersAttached', 'Inv_C12_ReadUnwatchedFails', 'Inv_C12_MatchesReferenceModel'],
     'C20': ['Inv_C20_OnePullPerImage', 'Inv_C20_ExactlyOneResponse', 'Inv_C20_NoPhantomPull', 'Inv_C20_Private', 'Inv_C20_NoLostWakeup'],
+    'C13': ['Inv_C13_Deterministic', 'Inv_C13_Conservation', 'Inv_C13_LabelsAndAnnotations', 'Inv_C13_FuncAllowList'],
     'C17': ['Inv_C17_Verdict', 'Inv_C17_AllFailuresReported', 'Inv_C17_CELMustBeBoolean', 'Inv_C17_ObjectUnchanged', 'Inv_C17_NoPanic'],
     'C19': ['Inv_C19_NoPanic'],
 }
@@ -106,6 +107,7 @@ GUARDS = {'C17': lambda e: e['ev'] == 'C17Row',
           'C09': g_paused, 'C11': g_preflight}
 
 RULES = {
+    'C13': 'one case = one abstract package rendered k times in one process; distinct abstract packages are counted',
     'C17': 'one case = one (probe list, object) row: every single-entry probe list x every abstract object exhaustively, lists of 2-3 entries sampled by seed',
     'C20': 'one case = one script of request arrivals / pull completions (3 callers x 2 images, success or failure) executed on the real RequestManager, or one free-running stress run; non-trivial if a pull completed with waiting callers; distinct by event sequence',
     'C12': 'one case = one operation sequence (Watch/Free/Get/List/OwnersForGKV with scripted informer start-up failures) executed on the real dynamiccache.Cache, or one concurrent stress run; distinct by the sequence of operations and results',
@@ -127,6 +129,7 @@ RULES = {
 
 # table-like drivers: one event = one case; distinct cases are counted by the abstract row itself
 ROWKEY = {
+    'C13': ('C13Row', lambda e: json.dumps(e['args']['pkg'], sort_keys=True)),
     'C17': ('C17Row', lambda e: json.dumps([e['args']['probes'], e['args']['obj']], sort_keys=True)),
 }
 
@@ -316,6 +319,12 @@ CHECKS = {
                          driver=['c12-seq', '-mode', 'random', '-n', '400' if tier == 'quick' else '20000', '-steps', '14', '-seed', str(seed)]),
                     dict(name='c12-stress', module='TraceDynCache', shards=4 if tier == 'quick' else 14,
                          driver=['c12-stress', '-n', '40' if tier == 'quick' else '2000', '-steps', '60', '-seed', str(seed)])]),
+    'C13': dict(level='model_checking', invariants=INV['C13'], module='TraceRender',
+                assumptions=['abstract package domain: 6 pooled file paths (plain, nested, templates with include helper, conditional path), 1-3 documents each with phase / CEL attributes',
+                             'each package is rendered repeatedly in one process (Go randomises map iteration per range loop)'],
+                level_text='Every abstract package (all subsets of the file pool exhaustively, document attributes seeded) is concretised into real package files and rendered repeatedly through the real structural loader, RenderPackageInstance, RenderObjectSetTemplateSpec and FNV hash; TLC compares the outcome with the TLA+ function Render!Expected, checks determinism and the template function allow list.',
+                jobs=lambda tier, seed: [dict(name='render-table', module='TraceRender', shards=8 if tier == 'quick' else 14,
+                                              driver=['render-table', '-n', '300' if tier == 'quick' else '20000', '-steps', '12' if tier == 'quick' else '60', '-seed', str(seed)])]),
     'C17': dict(level='model_checking', invariants=INV['C17'], module='TraceProbing',
                 assumptions=['abstract row domain: selectors {none,match,mismatch}^2, sub-probes condition/fieldsEqual/CEL, object status shapes incl. malformed conditions; observedGeneration values are integers'],
                 level_text='Every row of the abstract probe-list x object table (single-entry lists exhaustively, longer lists sampled/seeded) is concretised, run through the real internal/probing.Parse and pkg/probing probers, and TLC compares verdict, number of reported failures, parse errors and object immutability with the TLA+ function Probing!Pass.',
